@@ -66,7 +66,7 @@ def statLine (spec : Bool) (s : St Float) : String :=
   let v : View Float := viewOf spec s
   let blk := if spec then (refW gL s.hist (cbs gL s.now + gL - vI) (cbs gL s.now)).block else vSum s.arr vI s.now .block
   let maxavg := v.maxComplete.toFloat * vS.toFloat / vI.toFloat * 1000.0
-  s!"[p={v.pass} b={blk} c={v.complete} conc={v.conc} avgrt={avgRtOf v} minrt={v.minRt} qps={fbits (fA.qps v.pass)} maxavg={fbits maxavg}]"
+  s!"[p={v.pass} b={blk} c={v.complete} conc={v.conc} avgrt={fbits (fA.avgRt (avgRtOf v))} minrt={fbits v.minRt.toFloat} qps={fbits (fA.qps v.pass)} maxavg={fbits maxavg}]"
 
 def stepLine (spec : Bool) (s : St Float) (ts : List String) (_ : String) : St Float × Option String :=
   match ts with
